@@ -241,16 +241,20 @@ TEXTS = {
         "technique": "Lean 4 proof (bounds table implies rule set, for all type profiles) + regenerated bounds + rustc correspondence on a catalogue",
     },
     "C18": {
-        "text": "Machine-checked Lean 4 theorem C18_holds over Model/Spawn.lean: if no spawn entry point drops the "
-                "task handle and dropping hannibal's ActorHandle detaches, then for every entry point, every runtime "
-                "and every program of drop/detach/stop/call/join operations (any length) the observable outcome "
-                "equals the one on tokio, and every entry point leaves the actor running. What each entry point does "
-                "with the handle (kept/detached/dropped) and whether ActorHandle has a detaching Drop impl are "
-                "re-extracted from spawner.rs, builder.rs, service.rs, actor_handle.rs on every run and the instance "
-                "lemma re-proved by `decide`. Correspondence: a catalogue of timing-independent client programs "
-                "covering every spawn entry point is built and run on the three REAL runtimes; the model must predict "
-                "every observation on every runtime, and the three outputs must be identical.",
-        "design_ref": "DESIGN.md §5 C18, §8 D5",
+        "text": "Machine-checked Lean 4 theorem C18_holds over Model/Spawn.lean (task handle in a shared slot, lazy join "
+                "futures that take it at their first poll, optional detach closure, slot dies with its last owner): if no "
+                "spawn entry point drops the task handle, no spawner installs a detach closure and every spawner whose "
+                "runtime cancels a task on drop wraps the handle in a detach-on-drop guard, then for every entry point, "
+                "every runtime and every program of drop/detach/stop/call/join/joinCreate/joinPoll/joinAwait/joinDrop "
+                "operations (any length) the observable outcome equals the one on tokio, and every entry point leaves "
+                "the actor running. What each entry point does with the handle, whether ActorHandle has a detaching "
+                "Drop impl, whether join/detach are plain, and per spawner: detach closure, guard, lazy-shared-slot shape "
+                "are re-extracted from spawner.rs, builder.rs, service.rs, actor_handle.rs, *_spawner.rs on every run and "
+                "the instance lemma re-proved by `decide`. Correspondence: a catalogue of timing-independent client "
+                "programs covering every spawn entry point and join futures that are created / polled / dropped "
+                "independently of the owner is built and run on the three REAL runtimes; the model must predict every "
+                "observation on every runtime, and the three outputs must be identical.",
+        "design_ref": "DESIGN.md §5 C18, §8 D5, §15.2 D6",
         "note": "Trusted: Lean kernel + axioms; the modelled per-runtime meaning of dropping a task handle (the only "
                 "runtime-dependent ingredient), validated by the real runtimes; translator's classification of the "
                 "entry-point bodies; rt18 catalogue and its 1.5 s timeouts. Panics are out of scope of the family.",
